@@ -280,17 +280,18 @@ std::string ResolveText(const RSCore& core, std::string text, std::optional<Enti
     }
     const bool isDef = text.compare(pos, 5, "$def[") == 0;
     const bool isMade = text.compare(pos, 6, "$made[") == 0;
+    const bool isNominal = text.compare(pos, 5, "$nom[") == 0;     // resolved nominal term text of a CREATED constituent
     const auto open = text.find('[', pos);
     const auto close = text.find(']', pos);
-    if (open == std::string::npos || close == std::string::npos || open > close || (open != pos + 1 && !isDef && !isMade)) {
+    if (open == std::string::npos || close == std::string::npos || open > close || (open != pos + 1 && !isDef && !isMade && !isNominal)) {
       text.replace(pos, 1, "#");
       continue;
     }
     const auto index = std::stol(text.substr(open + 1, close - open - 1));
-    const auto uid = isMade ? MadeAt(index) : UidAt(core, index);
+    const auto uid = (isMade || isNominal) ? MadeAt(index) : UidAt(core, index);
     std::string repl = "X99";
     if (core.Contains(uid)) {
-      repl = isDef ? core.GetRS(uid).definition : core.GetRS(uid).alias;
+      repl = isDef ? core.GetRS(uid).definition : (isNominal ? core.GetText(uid).term.Nominal() : core.GetRS(uid).alias);
     }
     text.replace(pos, close - pos + 1, repl);
   }
